@@ -87,33 +87,22 @@ void NiString::Read(NiIStream& stream, const int szSize) {
 }
 
 void NiString::Write(NiOStream& stream, const int szSize) {
-	if (szSize == 1) {
-		auto sz = uint8_t(str.length());
-		str.resize(sz);
+	// Cuts the string to the longest one the size prefix can express
+	// (the size includes the null terminator) and returns the size to write
+	auto fitSize = [&](const size_t maxSize) {
+		const size_t maxLength = nullOutput ? maxSize - 1 : maxSize;
+		if (str.length() > maxLength)
+			str.resize(maxLength);
 
-		if (nullOutput)
-			sz += 1;
+		return nullOutput ? str.length() + 1 : str.length();
+	};
 
-		stream << sz;
-	}
-	else if (szSize == 2) {
-		auto sz = uint16_t(str.length());
-		str.resize(sz);
-
-		if (nullOutput)
-			sz += 1;
-
-		stream << sz;
-	}
-	else if (szSize == 4) {
-		auto sz = uint32_t(str.length());
-		str.resize(sz);
-
-		if (nullOutput)
-			sz += 1;
-
-		stream << sz;
-	}
+	if (szSize == 1)
+		stream << static_cast<uint8_t>(fitSize(std::numeric_limits<uint8_t>::max()));
+	else if (szSize == 2)
+		stream << static_cast<uint16_t>(fitSize(std::numeric_limits<uint16_t>::max()));
+	else if (szSize == 4)
+		stream << static_cast<uint32_t>(fitSize(std::numeric_limits<uint32_t>::max()));
 
 	stream.write(str.c_str(), str.length());
 	if (nullOutput)
